@@ -15,7 +15,9 @@ import (
 	sdk "github.com/cosmos/cosmos-sdk/types"
 	authtypes "github.com/cosmos/cosmos-sdk/x/auth/types"
 	vestingtypes "github.com/cosmos/cosmos-sdk/x/auth/vesting/types"
+	"github.com/cosmos/cosmos-sdk/x/authz"
 	banktypes "github.com/cosmos/cosmos-sdk/x/bank/types"
+	"github.com/cosmos/cosmos-sdk/x/feegrant"
 	govv1 "github.com/cosmos/cosmos-sdk/x/gov/types/v1"
 	govv1beta1 "github.com/cosmos/cosmos-sdk/x/gov/types/v1beta1"
 	paramproposal "github.com/cosmos/cosmos-sdk/x/params/types/proposal"
@@ -46,6 +48,7 @@ type rich struct {
 	txFailed        int
 	proposals       int
 	legacyProposals int
+	grants          int
 }
 
 func newRich(c *fw.Case, record bool) (*rich, error) {
@@ -242,6 +245,35 @@ func (r *rich) traffic(c *fw.Case, intensity int) {
 					}
 				}
 			}
+		}
+	}
+	// anybody may grant a fee allowance or an authorization to any address; x/feegrant and
+	// x/authz create the grantee's account when it does not exist - also at the address of a
+	// module account that nothing has used yet. Whatever the distributor is configured to pay
+	// later, its BeginBlocker must cope with what is there
+	if c.R.Intn(12) == 0 {
+		// (module accounts of the custom modules. Left alone: the SDK's fee collector and the
+		// validators' rewards collector, which this application wires into x/distribution as
+		// its fee collector - x/distribution asks for that account in every block from height 2
+		// on, so it exists on any chain before a transaction could get there, and a panic of
+		// x/distribution in the harness' first block would not be one of the minter or the
+		// distributor)
+		names := []string{"cfeminter", "cfevesting", "gov", disttypes.DistributorMainAccount, disttypes.GreenEnergyBoosterCollector, disttypes.GovernanceBoosterCollector}
+		grantee := authtypes.NewModuleAddress(names[c.R.Intn(len(names))])
+		if c.R.Intn(4) == 0 {
+			grantee = chain.NewKey(fmt.Sprintf("grantee-%d", c.R.Intn(1000))).Addr
+		}
+		granter := e.owners[c.R.Intn(len(e.owners))]
+		var msg sdk.Msg
+		if c.R.Intn(2) == 0 {
+			msg, _ = feegrant.NewMsgGrantAllowance(&feegrant.BasicAllowance{}, granter.Addr, grantee)
+		} else {
+			exp := r.now.Add(1000 * time.Hour)
+			msg, _ = authz.NewMsgGrant(granter.Addr, grantee, authz.NewGenericAuthorization("/cosmos.bank.v1beta1.MsgSend"), &exp)
+		}
+		if msg != nil {
+			r.deliver(granter, nil, msg)
+			r.grants++
 		}
 	}
 	// ... and a legacy parameter-change proposal (gov v1beta1): x/gov runs its content once at
